@@ -1376,7 +1376,9 @@ def evalCtorDecl : Nat → Stmt → M ν Unit
       let cname ← matchIDNameOpt name
       let (cv, mid) ← findElementWithModule cname
       match ← getCell cv with
-      | .cls nm _ props methods => setCell cv (.cls nm (.user mid exec) props methods)
+      | .cls nm _ props methods =>
+        -- only a type of a program module takes a constructor (the predefined 异常 lives in the native module)
+        if mid < 0 then rtErr 87 else setCell cv (.cls nm (.user mid exec) props methods)
       | _ => rtErr 87
     | _ => goPanic
 
